@@ -44,10 +44,14 @@ type MultiStatus struct {
 // ParseStatus parses an RFC 4918 status element's text:
 // "HTTP/1.1" SP 3DIGIT SP reason-phrase.
 func ParseStatus(s string) (Status, error) {
-	s = strings.TrimSpace(s)
+	// RFC 7230: status-line = HTTP-version SP status-code SP reason-phrase;
+	// the phrase may be empty but the second SP is part of the grammar, so
+	// trailing spaces are kept (only line breaks/tabs of pretty-printing go).
+	s = strings.TrimLeft(s, " \t\r\n")
+	s = strings.TrimRight(s, "\t\r\n")
 	parts := strings.SplitN(s, " ", 3)
-	if len(parts) < 2 {
-		return Status{}, fmt.Errorf("davx: malformed status %q", s)
+	if len(parts) < 3 {
+		return Status{}, fmt.Errorf("davx: malformed status %q: want HTTP-version SP status-code SP reason-phrase", s)
 	}
 	if !strings.HasPrefix(parts[0], "HTTP/") {
 		return Status{}, fmt.Errorf("davx: status %q does not start with HTTP-version", s)
